@@ -222,6 +222,25 @@ def variants_outcomes(g, entries, texts, sa, extends_parent=None):
                 sut.forget(dname)
             else:
                 out['derived'] = 'compile:%s' % (derr[1] if len(derr) > 1 else derr[0])
+            # a derived grammar with an (anonymous) ignore statement of its own next to the inherited ones:
+            # the same two descriptions, with and without include_source
+            if g.ignores:
+                sep = b';' if g.mode == 'bytes' else ';'
+                texts2 = texts[:40] + [t[:1] + sep + t[1:] + sep for t in texts[:40]]
+                for inc in (False, True):
+                    dn = sut.fresh_name('vfc11i_')
+                    dm, derr = sut.compile_grammar('grammar %s extends %s\nignore %s\nExtraRuleOfDerived = "zz"\n'
+                                                   % (dn, name, "b';'" if g.mode == 'bytes' else "';'"), include_source=inc)
+                    label = 'derived-ignore' + ('+source' if inc else '')
+                    if dm is None:
+                        out[label] = 'compile:%s' % (derr[1] if len(derr) > 1 else derr[0])
+                        continue
+                    rows = []
+                    for e in entries:
+                        fn = sut.entry(dm, e)
+                        rows.append([norm(sut.run(dm, None, t, budget=diff.QUICK_BUDGET, fn=fn)) for t in texts2])
+                    out[label] = rows
+                    sut.forget(dn)
     finally:
         sut.forget(name)
     return out, src
@@ -235,6 +254,10 @@ def compare(out):
             continue
         if label in ('derived', 'standalone-derived'):
             ref = out.get('named')
+        elif label == 'derived-ignore':
+            continue
+        elif label == 'derived-ignore+source':
+            ref = out.get('derived-ignore')
         else:
             ref = base
         if isinstance(rows, str) or isinstance(ref, str):
@@ -256,7 +279,7 @@ class C11(Check):
     rule = ('cases = (description, entry, input) compared across variants: unnamed, unnamed compiled again, unnamed with '
             'include_source, named, named with include_source, the emitted source of the unnamed and of the named variant saved '
             'to a file and imported by a separate interpreter started with -I -S (sys.path = standard library + temp directory, '
-            'checked), a grammar that extends the named one (in memory and as emitted source next to its parent). Descriptions '
+            'checked), a grammar that extends the named one (in memory and as emitted source next to its parent), a grammar that extends it and adds an anonymous ignore statement (with and without include_source). Descriptions '
             'from the union generator: rich grammars (templates with captured names, classes with parameters, let, where), core '
             'grammars with ignore (text and bytes), operator tables, nesting deep enough to be split into helper functions. '
             'All variants must give the same outcome class, value and position for every entry and all inputs of length <= 3 '
